@@ -26,7 +26,106 @@ def c26(t):
     return out.finish()
 
 
-PROPS = {"C26": c26}
+LIFT_REAL = ["src/index/entry.rs", "src/index/utxo_entry.rs", "src/index/lot.rs", "src/runes.rs",
+             "src/inscriptions/inscription_id.rs", "src/decimal.rs", "src/macros.rs"]
+
+SHIM_NOTE = ("function bodies are the bytes of /repo/src files at run time (sha256 prefix in coverage.source_digest); "
+             "their parent modules (crate root, `index`, `inscriptions`) are a ~150-line shim in harness/lift/src/lift*.rs that "
+             "supplies names only: Error/Result/Context/bail! stand-ins without formatting or backtraces and "
+             "Index{index_sats,index_addresses,index_inscriptions}; the shim is validated each run by running the repo's own unit "
+             "tests of the lifted files through it natively")
+
+
+def shim_validation(out):
+    """Run the repo's own unit tests of the lifted files through the shim natively."""
+    d = K.gen_lift()
+    rc, o, wall = C.run(["cargo", "test", "--offline", "--lib"], cwd=d, timeout=1800,
+                        log=os.path.join(C.BUILD, "logs", "%s_shim_tests.log" % out.pid))
+    import re
+    m = re.search(r"test result: (\w+)\. (\d+) passed; (\d+) failed", o)
+    if not m:
+        out.inconclusive.append("shim validation: lifted files do not compile natively under the shim (see build/logs/%s_shim_tests.log)" % out.pid)
+        print("\n".join(o.splitlines()[-30:]))
+        return False
+    out.extra["shim_validation"] = {"native_unit_tests_passed": int(m.group(2)), "failed": int(m.group(3)), "wall_s": round(wall, 1)}
+    if m.group(1) != "ok":
+        # the repo's own tests fail on the current tree: not ours to judge here, but the
+        # shim cannot be called validated
+        out.inconclusive.append("shim validation: %s of the repo's own unit tests fail when run through the shim" % m.group(3))
+        return False
+    return True
+
+
+def c35(t):
+    out = C.Outcome("C35", "model_checking", t, [
+        "ord::index::entry::<SatRange as Entry>::{load,store}", "<OutPoint as Entry>", "<SatPoint as Entry>", "<InscriptionId as Entry>",
+        "<Txid as Entry>", "<RuneId as Entry>", "<Rune as Entry>", "<RuneEntry as Entry>", "<InscriptionEntry as Entry>", "<Header as Entry>",
+        "ord::index::utxo_entry::UtxoEntryBuf::{new,push_value,push_sat_ranges,push_script_pubkey,push_inscription,push_inscriptions,merged}",
+        "ord::index::utxo_entry::UtxoEntry::parse", "ParsedUtxoEntry::{total_value,sat_ranges,script_pubkey,parse_inscriptions}",
+        "ordinals::varint::{encode_to_vec,decode}"])
+    out.extra["source_digest"] = C.repo_digest(LIFT_REAL)
+    out.assumptions = [SHIM_NOTE,
+        "entries are built the way src/index/updater.rs builds them (push_sat_ranges of concatenated SatRange::store, push_value, push_script_pubkey, push_inscription)",
+        "UtxoEntry element counts are concrete per harness (<= 2 ranges, <= 3 script bytes, <= 1 inscription, or 2 without other parts); element values are fully symbolic except where a bound is stated",
+        "rune balance lists (encode_rune_balance/decode_rune_balance in src/index.rs) are not covered here",
+        "redb itself (that a stored byte string is returned unchanged) is trusted"]
+    if not shim_validation(out):
+        return out.finish()
+    f = "h_entry.rs"
+    dom = "statement domain: 0 <= start <= end <= Sat::SUPPLY, end-start <= 50 BTC"
+    specs = [
+        dict(h="c35_sat_range_roundtrip", file=f, bounds="all (start,end) in the " + dom, claim="SatRange::load(store(r)) == r"),
+        dict(h="c35_sat_range_packing_limits", file=f, bounds="all base < 2^51, delta < 2^33", claim="51+33-bit packing is lossless"),
+        dict(h="c35_outpoint_roundtrip", file=f, bounds="all 32-byte txids, all u32 vout; unwind 40", claim="OutPoint load(store(o)) == o"),
+        dict(h="c35_satpoint_roundtrip", file=f, bounds="all txid/vout/u64 offset; unwind 48", claim="SatPoint load(store(p)) == p"),
+        dict(h="c35_inscription_id_roundtrip", file=f, bounds="all txid/u32 index; unwind 34", claim="InscriptionId load(store(id)) == id"),
+        dict(h="c35_txid_and_small_entries_roundtrip", file=f, bounds="all values", claim="Txid, RuneId, Rune store/load identity"),
+        dict(h="c35_rune_entry_roundtrip", file=f, bounds="all field values incl. any char symbol and any Terms option pattern", claim="RuneEntry load(store(e)) == e fieldwise"),
+        dict(h="c35_inscription_entry_roundtrip", file=f, bounds="all field values; parents list length 0..=2", claim="InscriptionEntry load(store(e)) == e fieldwise incl. parent order"),
+        dict(h="c35_header_roundtrip", file=f, bounds="all 80-byte header field values; unwind 82", claim="Header load(store(h)) == h"),
+    ]
+    g = "h_utxo.rs"
+    u = lambda h, b, c="build -> parse returns exactly the ranges/value, script and inscriptions pushed": dict(h=h, file=g, bounds=b, claim=c)
+    specs += [
+        u("c35_utxo_bp_000", "flags sats=0 addr=0 insc=0; any u64 value"),
+        u("c35_utxo_bp_100", "flags 1/0/0; 2 symbolic ranges in the statement domain"),
+        u("c35_utxo_bp_110", "flags 1/1/0; 2 ranges, 3 symbolic script bytes"),
+        u("c35_utxo_bp_111_empty", "flags 1/1/1; empty entry"),
+        u("c35_utxo_bp_010_b2", "flags 0/1/0; value < 2^14 (<= 2-byte varint), 3 script bytes"),
+        u("c35_utxo_bp_111_n1_b1", "flags 1/1/1; 1 range, 1 script byte, 1 inscription with any u32 sequence number and offset < 128"),
+        u("c35_utxo_merged_000", "flags 0/0/0", "merged keeps both sides"),
+        u("c35_utxo_merged_110_1010", "flags 1/1/0; one range each side", "merged keeps every range of both, in order a then b"),
+        u("c35_utxo_merged_100_2010", "flags 1/0/0; two ranges + one range", "merged keeps every range of both"),
+    ]
+    if t == "thorough":
+        specs += [
+            u("c35_utxo_bp_010_full", "flags 0/1/0; any u64 value, 3 script bytes"),
+            u("c35_utxo_bp_111_n1_b2", "flags 1/1/1; 1 range, 1 script byte, 1 inscription, offset < 2^14"),
+            u("c35_utxo_bp_101_n1_b2", "flags 1/0/1; 1 range, 1 inscription, offset < 2^14"),
+        ]
+    kprop.decide(out, "liftk", K.gen_lift, "t-liftk", specs, jobs=8 if t == "quick" else 6,
+                 harness_timeout=900 if t == "quick" else 2400)
+    return out.finish()
+
+
+def c10(t):
+    out = C.Outcome("C10", "model_checking", t, ["ord::index::entry::RuneEntry::{mintable,start,end}"])
+    out.extra["source_digest"] = C.repo_digest(LIFT_REAL)
+    out.assumptions = [SHIM_NOTE,
+        "block heights passed to mintable() are <= u32::MAX (ord's Height is u32); RuneEntry.block, offsets and absolute heights are any u64",
+        "only the mint-terms predicate is decided; the clauses living in RuneUpdater::mint / index_runes (mint count update, cenotaph mint still counts, unetched rune has no effect) are NOT covered: rune_updater.rs is HashMap/redb-table code out of reach of the engines here"]
+    if not shim_validation(out):
+        return out.finish()
+    f = "h_entry.rs"
+    specs = [
+        dict(h="c10_mintable_matches_statement", file=f, bounds="every Terms (all 2^6 option patterns x any u64/u128 values), any etching block u64, any mint count u128, any height <= u32::MAX", claim="mintable(h) is Ok(amount) exactly when the statement's conditions hold (exact u128 arithmetic reference), error variants justified"),
+        dict(h="c10_start_end_are_later_and_earlier", file=f, bounds="every Terms, any block", claim="start() = later of absolute/relative start, end() = earlier of absolute/relative end, relative = block+offset saturating at u64::MAX"),
+    ]
+    kprop.decide(out, "liftk", K.gen_lift, "t-liftk", specs, jobs=2, harness_timeout=900)
+    return out.finish()
+
+
+PROPS = {"C26": c26, "C35": c35, "C10": c10}
 
 
 def main(pid, argv):
